@@ -6,7 +6,7 @@ mkdir -p $D
 rm -rf $D/src $D/tests; git -C /repo archive HEAD | tar -x -C $D
 mkdir -p $D/.cargo; printf '[net]\noffline = true\n' > $D/.cargo/config.toml
 python3 -c "import sys; sys.path.insert(0,'/verif'); from vlib import weave; print([e['applied'] for e in weave.inject_attrs('$D')])"
-for f in /verif/contracts/*.kani.rs; do b=$(basename $f .kani.rs); cat $f >> $D/src/$b.rs; done
+python3 -c "import sys; sys.path.insert(0,'/verif'); from vlib import weave; print([e.get('missing') for e in weave.inject_kani_modules('$D') if e.get('missing')])"
 cd $D
 H=""
 for h in "$@"; do H="$H --harness $h"; done
